@@ -119,6 +119,20 @@ func richUpdate(r *simrt.Rand, pc PeerCfg, v6 bool, mpV4 bool) []byte {
 	if r.Chance(0.2) {
 		at.AtomicAggr = true
 	}
+	if r.Chance(0.4) {
+		// attributes a speaker may carry without acting on them: AS4_PATH (17), AS4_AGGREGATOR (18),
+		// and codes nobody knows, optional transitive, well-formed
+		switch r.Intn(4) {
+		case 0:
+			at.Unknown = append(at.Unknown, UnknownAttr{Flags: 0xc0, Type: 18, Value: []byte{0, 0, 0xfd, 0xe8}})
+		case 1:
+			at.Unknown = append(at.Unknown, UnknownAttr{Flags: 0xc0, Type: 18, Value: []byte{0, 0, 0xfd, 0xe8, 10, 0, 0, 1}})
+		case 2:
+			at.Unknown = append(at.Unknown, UnknownAttr{Flags: 0xc0, Type: 17, Value: []byte{2, 1, 0, 0, 0xfd, 0xe9}})
+		default:
+			at.Unknown = append(at.Unknown, UnknownAttr{Flags: 0xc0, Type: uint8(40 + r.Intn(200)), Value: []byte{1, 2, 3}})
+		}
+	}
 	u := UpdateSpec{ASN4: pc.PeerASN4, V6: v6, ForceMP: mpV4 && !v6, Attrs: at.Attrs(v6)}
 	if v6 {
 		u.Announce = []NLRI{{Prefix: P6(0x20010db800990000, 0, 48)}, {Prefix: P6(0x20010db800990001, 0, 64)}}
